@@ -41,13 +41,31 @@ def construct(libs):
 
     try:
         p = Program(libraries=tuple(libs))
-        return {"outcome": "ok", "library": {n: getattr(c, "origin", c.__module__) for n, c in sorted(p.command_library.items())}}
+        resolved = {}
+        for n in PROBES:
+            try:
+                c = p.find_command_class(n)
+                resolved[n] = None if c is None else getattr(c, "origin", c.__module__)
+            except Exception as e:
+                resolved[n] = "<raised %s>" % type(e).__name__
+        return {"outcome": "ok", "library": {n: getattr(c, "origin", c.__module__) for n, c in sorted(p.command_library.items())}, "resolved": resolved}
     except Exception as e:
         return {"outcome": "raise", "exc_class": type(e).__name__, "is_mpilot": isinstance(e, MPilotError), "msg": str(e)[:200]}
 
 
+PROBES = []
+
+
 def run_case(case, base):
     out = {"history": []}
+    names = set()
+    for spec in case.get("packages", {}).values():
+        for classes in spec["mods"].values():
+            for c in classes:
+                nm, _, alias = c.partition(":")
+                names.add(alias or nm)
+    names.update(s[2] for s in case["history"] if s[0] == "define")
+    PROBES[:] = sorted(names | {n.lower() for n in names} | {n.upper() for n in names})
     for step in case["history"]:
         if step[0] == "program":
             out["history"].append(construct(step[1]))
